@@ -326,15 +326,20 @@ static void Array_Rem(var self, var obj) {
   throw(ValueError, "Object %$ not in Array!", obj);
 }
 
-static void Array_Reserve_One(struct Array* a) {
+/* room for one more item; an object that is an item of this Array is followed to the new store */
+static var Array_Reserve_One(struct Array* a, var obj) {
+  uintptr_t lo = (uintptr_t)a->data;
+  uintptr_t hi = lo + Array_Step(a) * a->nitems;
+  bool inside = (uintptr_t)obj >= lo and (uintptr_t)obj < hi;
   a->nitems++;
   Array_Reserve_More(a);
   a->nitems--;
+  return inside ? (var)((char*)a->data + ((uintptr_t)obj - lo)) : obj;
 }
 
 static void Array_Push(var self, var obj) {
   struct Array* a = self;
-  Array_Reserve_One(a);
+  obj = Array_Reserve_One(a, obj);
   Array_Alloc(a, a->nitems);
   assign(Array_Item(a, a->nitems), obj);
   a->nitems++;
@@ -355,7 +360,7 @@ static void Array_Push_At(var self, var obj, var key) {
 #endif
   
   /* construct the new item in the spare slot first, then move it into place */
-  Array_Reserve_One(a);
+  obj = Array_Reserve_One(a, obj);
   Array_Alloc(a, a->nitems);
   assign(Array_Item(a, a->nitems), obj);
   
